@@ -82,6 +82,8 @@ def shift_per_element(c, s, sample_shape):
     def s_of(e):
         return s.elem(tuple(0 if (not is_sym(s.shape[i]) and s.shape[i] == 1) else e[i] for i in range(r)))
     import itertools
+    if any(is_sym(d) for d in s.shape):
+        return s_of, None, (lambda m: s.elem(m))       # symbolic extent: no enumeration of the elements
     space = list(itertools.product(*[range(int(d)) for d in s.shape]))
     return s_of, space, (lambda m: s.elem(m))
 
@@ -347,6 +349,20 @@ def inst_freq_shift():
                     sh = nm.real("df", 1)
                 return (z, sh), {}
             out.append(Instance(f"{label},{cls},{dt},{be}", build))
+    # any channel count (one sample axis of symbolic extent): the element loop of the code is summarised
+    for kind in ("scalar", "array-full", "array-one"):
+        def build(interp, ctx, nm, kind=kind):
+            z = mk_signal(interp, ctx, "z", "BasebandSignal", dtype="complex128", min_len=1, align="bottom", nm=nm)
+            U = interp.stubs.units
+            S1 = z.ghost["data"].shape[1]
+            if kind == "scalar":
+                sh = Qty(nm.real("df", 137), FREQ_DIM, U["Hz"])
+            else:
+                sh = Qty(sym_array("df", (S1,) if kind == "array-full" else (1,), "float64", nm=nm, scale=400), FREQ_DIM, U["Hz"])
+            return (z, sh), {}
+        inst = Instance(f"{kind},S=(any,),BasebandSignal,complex128,numpy", build)
+        inst.generalisation = True
+        out.append(inst)
     return out
 
 
